@@ -433,6 +433,72 @@ func checkC(r *ev.Run, aw *aworld, recs []locRecord, c ccase) {
 	}
 }
 
+// ---------------- Part D: the declared node state as an arbitrary script integer ----------------
+
+func stateValues() (names []string, vals []*big.Int) {
+	p := func(e uint) *big.Int { return new(big.Int).Lsh(big.NewInt(1), e) }
+	add := func(n string, v *big.Int) { names = append(names, n); vals = append(vals, v) }
+	add("0", big.NewInt(0))
+	add("1(online)", big.NewInt(1))
+	add("2(offline)", big.NewInt(2))
+	add("3(maintenance)", big.NewInt(3))
+	add("4", big.NewInt(4))
+	add("-1", big.NewInt(-1))
+	add("-3", big.NewInt(-3))
+	add("2^32+1", new(big.Int).Add(p(32), big.NewInt(1)))
+	add("2^63", p(63))
+	add("2^63+1", new(big.Int).Add(p(63), big.NewInt(1)))
+	add("2^64+1", new(big.Int).Add(p(64), big.NewInt(1)))
+	add("2^64+3", new(big.Int).Add(p(64), big.NewInt(3)))
+	add("2^65+1", new(big.Int).Add(p(65), big.NewInt(1)))
+	add("2^128+1", new(big.Int).Add(p(128), big.NewInt(1)))
+	add("2^128+3", new(big.Int).Add(p(128), big.NewInt(3)))
+	add("-(2^64)+1", new(big.Int).Add(new(big.Int).Neg(p(64)), big.NewInt(1)))
+	add("-(2^64)+3", new(big.Int).Add(new(big.Int).Neg(p(64)), big.NewInt(3)))
+	add("2^255-1(max)", new(big.Int).Sub(p(255), big.NewInt(1)))
+	add("-(2^255)(min)", new(big.Int).Neg(p(255)))
+	return
+}
+
+type dcase struct{ State, Cfg int }
+
+func checkD(r *ev.Run, aw *aworld, c dcase) {
+	names, vals := stateValues()
+	w := aw.w
+	_, k := irworld.Node("plain")
+	m := stackitem.NewMap()
+	m.Add(stackitem.NewByteArray([]byte("Capacity")), stackitem.NewByteArray([]byte("100")))
+	item := stackitem.NewStruct([]stackitem.Item{stackitem.NewArray([]stackitem.Item{stackitem.NewByteArray([]byte("/dns4/sn.example/tcp/8080"))}),
+		m, stackitem.NewByteArray(k.PublicKey().Bytes()), stackitem.NewBigInteger(vals[c.State])})
+	setMember(w, true)
+	w.Lock(func(t *irworld.Tables) { t.ValidScript, t.ValidScriptErr = true, nil })
+	aw.nonce++
+	nr := w.Request(irworld.Script(irworld.CallSpec{Contract: w.Netmap, Method: "addNode", Args: []any{item}}), irworld.NROpt{Invoker: true, Nonce: aw.nonce})
+	w.Notary(nr)
+	approved := false
+	for _, x := range w.TakeCalls() {
+		if x.Method == "NotarySignAndInvokeTX" && x.TxHash == nr.MainTransaction.Hash().StringLE() {
+			approved = true
+		}
+	}
+	r.Eval(1)
+	allowed := vals[c.State].Cmp(big.NewInt(1)) == 0 || vals[c.State].Cmp(big.NewInt(3)) == 0 // exactly ONLINE or MAINTENANCE
+	classMu.Lock()
+	classes[fmt.Sprintf("state-integer/allowed=%v/approved=%v", allowed, approved)]++
+	classMu.Unlock()
+	r.Nontrivial("D:" + names[c.State] + "/" + cfgMenu[c.Cfg])
+	size := "fits-int64"
+	if !vals[c.State].IsInt64() {
+		size = "beyond-int64"
+	}
+	switch {
+	case approved && !allowed:
+		r.Violation("admitted-with-state-integer-that-is-no-allowed-state/"+size, fmt.Sprintf("node state %s admitted (cfg=%s)", names[c.State], cfgMenu[c.Cfg]), c)
+	case !approved && allowed:
+		r.Violation("refused-with-allowed-state-integer", fmt.Sprintf("node state %s refused (cfg=%s)", names[c.State], cfgMenu[c.Cfg]), c)
+	}
+}
+
 // ---------------- Part B ----------------
 
 var opNames = []string{"NewEpoch+1", "NewEpoch=", "NewEpoch+2", "NewEpoch-1", "NewEpoch+1/unknown-tx-height", "block@deadline", "block-early", "flip-membership"}
@@ -635,7 +701,15 @@ func main() {
 	if r.Replay != "" {
 		var raw map[string]any
 		r.LoadReplay(&raw)
-		if _, ok := raw["Decl"]; ok {
+		if _, ok := raw["State"]; ok && len(raw) == 2 {
+			var c dcase
+			r.LoadReplay(&c)
+			aw, err := newAWorld("replay", cfgMenu[c.Cfg] == "external")
+			if err != nil {
+				r.Fatal("%v", err)
+			}
+			checkD(r, aw, c)
+		} else if _, ok := raw["Decl"]; ok {
 			var c ccase
 			r.LoadReplay(&c)
 			recs, err := locRecords()
@@ -762,6 +836,21 @@ func main() {
 	})
 	r.Set("locode_cases", len(ccases))
 	r.Set("locode_records", recs)
+	// ---- Part D ----
+	{
+		names, _ := stateValues()
+		for cfg := range cfgMenu {
+			aw, err := newAWorld(fmt.Sprintf("D/%d", cfg), cfgMenu[cfg] == "external")
+			if err != nil {
+				r.Fatal("world: %v", err)
+			}
+			for si := range names {
+				checkD(r, aw, dcase{si, cfg})
+			}
+			aw.w.Close()
+		}
+		r.Set("state_integers", names)
+	}
 	// ---- Part B ----
 	// quick: length <= 4, at most one fault letter per history; thorough: length <= 5 over all letters plus
 	// length 6 over the 8 fault-free letters
@@ -825,7 +914,7 @@ func main() {
 	r.Set("epoch_histories", len(bcases))
 	r.Set("epoch_history_depth", depth)
 	r.Set("epoch_history_letters", opNames)
-	r.Rule("A: full product key{plain,NNS-listed,malformed} x endpoints{ok,ok-tls,udp,garbage,unreachable,lying,none,ok+udp} x state{online,maintenance,offline,unknown} x LOCODE{none,good,wrong country,unknown} x verified domain{none,listed domain,other} x external verdict{accept,reject} x external validator configured{no,yes} x chain verdict on script{valid,invalid,error,valid+error} in member state (+ the valid-script half again for a non-member); non-trivial = member, valid tx, and at most one validator rejects. C: for every LOCODE DB record shape found among 24 probed locations (at most 2 records per shape; shapes with and without subdivision required) every declaration vector of the six derived attributes {absent, DB value, other value} (an attribute the DB leaves empty: {absent, declared}) x external validator configured{no,yes}, otherwise flawless candidate; non-trivial = at most one wrong attribute and none omitted. B: every operation history over 8 fault-free letters + one letter 'NewEpoch+1 while the k-th read R of its handling fails' per faultable read the real handler performs (learnt through the hook: epoch duration x2, tx height, block header, netmap snapshot), from member and non-member start; quick: length 1..4 with at most one fault letter; thorough: length 1..5 over all letters and length 6 over the fault-free ones; non-trivial = distinct history prefix ending in a timer fire answered by a tick")
+	r.Rule("A: full product key{plain,NNS-listed,malformed} x endpoints{ok,ok-tls,udp,garbage,unreachable,lying,none,ok+udp} x state{online,maintenance,offline,unknown} x LOCODE{none,good,wrong country,unknown} x verified domain{none,listed domain,other} x external verdict{accept,reject} x external validator configured{no,yes} x chain verdict on script{valid,invalid,error,valid+error} in member state (+ the valid-script half again for a non-member); non-trivial = member, valid tx, and at most one validator rejects. C: for every LOCODE DB record shape found among 24 probed locations (at most 2 records per shape; shapes with and without subdivision required) every declaration vector of the six derived attributes {absent, DB value, other value} (an attribute the DB leaves empty: {absent, declared}) x external validator configured{no,yes}, otherwise flawless candidate; non-trivial = at most one wrong attribute and none omitted. D: the declared node state as a script integer {0,1,2,3,4,-1,-3,2^32+1,2^63,2^63+1,2^64+1,2^64+3,2^65+1,2^128+1,2^128+3,-(2^64)+1,-(2^64)+3,2^255-1,-(2^255)} x external validator configured{no,yes}, otherwise flawless candidate: admitted iff the integer is exactly 1 or 3. B: every operation history over 8 fault-free letters + one letter 'NewEpoch+1 while the k-th read R of its handling fails' per faultable read the real handler performs (learnt through the hook: epoch duration x2, tx height, block header, netmap snapshot), from member and non-member start; quick: length 1..4 with at most one fault letter; thorough: length 1..5 over all letters and length 6 over the fault-free ones; non-trivial = distinct history prefix ending in a timer fire answered by a tick")
 	r.Exhaustive(exhaustive)
 	r.Assume("C: reference = the LOCODE DB record read with locodedb.Get: a candidate declaring any derived attribute different from the DB (or declaring one the DB leaves empty) must be refused, a candidate declaring exactly the DB values must be admitted; candidates that merely omit a derived attribute are executed and counted but not judged",
 		"the availability validator's dial, the external validator's HTTP call and the NNS read are environment: answered as pure functions of the descriptor",
